@@ -57,7 +57,7 @@ CLAIMS = {
                 technique='registry closure (table rule) + def-use', ref='§5 C11'),
     'C12': dict(text='Static analysis of partition-bounds metadata: writer/reader key agreement, per-partition values from that partition\'s total_bounds in partition order, '
                      'string->int conversion before the ordering sort, natural sort of pieces, closed-overlap filter with re-oriented box (exhaustive order-type evaluation), one mask '
-                     'for partitions/divisions/all bounds tables, bounds of the active geometry used for filtering. No memoisation of storage reads; the geometry name is read after set_geometry (CFG order); selection-key guard of cache propagation. Concrete small-scope fallback for computed overlap masks; NaN-aware merging of extents; class-level containers never filled through instances; box coordinates never tested for truth; array extents computed from the own window of the array. Filtering only when bounds= is given; overlap masks computed in helpers followed; every per-partition callable returns exactly one row on every return.',
+                     'for partitions/divisions/all bounds tables, bounds of the active geometry used for filtering. No memoisation of storage reads; the geometry name is read after set_geometry (CFG order); selection-key guard of cache propagation. Concrete small-scope fallback for computed overlap masks; NaN-aware merging of extents; class-level containers never filled through instances; box coordinates never tested for truth; array extents computed from the own window of the array. A dataset\'s bounds table is reported only when it has one row per file read, or its rows are selected by file (D31). Filtering only when bounds= is given; overlap masks computed in helpers followed; every per-partition callable returns exactly one row on every return.',
                 undecided='that the recorded numbers equal the data extents (C13, pyarrow).',
                 technique='key/table agreement + CFG ordering + order-type evaluation + def-use pairing', ref='§5 C12'),
     'C13': dict(text='Static analysis of bounds kernels and accessors: parity->axis, min/max roles, isfinite guards, sentinel->NaN, result layout, values/offsets pairing (absolute vs '
